@@ -36,6 +36,12 @@ def check(run, views, tier):
                 run.anchor_lost("R-GUARD", r)
         bodies = parse_cone | inspect_cone
         n_fn, counts = gr.r_guard(run, F, T, bodies)
+        for imp in F.impls:
+            if imp.get("trait") in ("std::ops::Drop", "core::ops::Drop", "std::ops::drop::Drop") and str(imp.get("self", "")).startswith("ipp::") and \
+                    not str(imp.get("self", "")).startswith("ipp::client"):
+                run.ob("R-GUARD", "no user Drop impl on the types a parser returns", False,
+                       "impl Drop for %s: dropping a parsed message runs user code (it can block on the source, panic, or re-enter an executor)" % imp["self"],
+                       "%s:%s" % (imp["file"], imp["line"]), key="R-GUARD|drop-impl|%s" % imp["self"])
         from .c15 import check_alloc
         check_alloc(run, F)          # abort by memory exhaustion: constant pre-allocations per token stay within budget
         run.floor("R-GUARD", n_fn, 30, "functions in the parse/inspect cones")
